@@ -44,7 +44,7 @@ def main():
         dst = os.path.join(out, "demo", d.replace("/", "__"))
         shutil.copy(os.path.join(wt, d), dst)
     pkgs = sorted({"./" + os.path.dirname(d) for d in demos if d.endswith("_test.go")})
-    demo_cmd = ["go", "test", "-vet=off", "-count=1", "-run", "SeedDemo|Seed|seed"] + pkgs
+    demo_cmd = ["go", "test", "-tags", "verif", "-vet=off", "-count=1", "-run", "SeedDemo|Seed|seed"] + pkgs
     # (1) with the change
     rc1, o1 = sh(demo_cmd, cwd=wt)
     meta["ran"].append(dict(cmd=" ".join(demo_cmd), tree="with change", rc=rc1, tail=o1[-600:]))
